@@ -215,6 +215,9 @@ func ruleP4(c *Ctx) {
 			if s.Proven {
 				np++
 				r.Discharge("P4", key, c.P.pos(s.Pos), fmt.Sprintf("dominating conditions give len ∈ %s ⊆ [%d,∞)", s.Fact, s.Need))
+			} else if callersGiveLen(fn, s.Base, s.Need, 0) {
+				np++
+				r.Discharge("P4", key, c.P.pos(s.Pos), fmt.Sprintf("every caller passes a value of length >= %d (constant, or tested at the call)", s.Need))
 			} else if why, ok := c11ResidualIndex[key]; ok {
 				r.Discharge("P4", key, c.P.pos(s.Pos), "invariant "+why)
 			} else {
